@@ -122,6 +122,11 @@ func buildVC(w *World, c *Contract) (vc *FuncVC) {
 		resList = []Val{res.ret}
 	}
 	for _, cl := range c.byKind("ensures") {
+		if strings.HasPrefix(cl.Label, "T.") {
+			// a trusted clause of a partly verified function: assumed at call sites, not proved here
+			e.trustedClauses = append(e.trustedClauses, c.Func+".ensures."+cl.Label+": "+cl.Expr)
+			continue
+		}
 		pf := w.Preds[c.Pkg+"."+cl.Pred]
 		t := e.evalPred(pf, append(append([]Val{}, args...), resList...), res.heap, h0)
 		// known findings: prove the clause outside the recorded regions, and confirm
@@ -250,7 +255,11 @@ func buildVC(w *World, c *Contract) (vc *FuncVC) {
 		e.oblige(&Obligation{Name: c.Func + ".globals.scan", Kind: "frame", Clause: fmt.Sprintf("static scan of %s and everything it can call for stores into package-level variables (%d found)", c.Func, len(seenG)), Goal: "(= (_ bv0 8) (_ bv0 8))", Func: c.Func, Pos: e.posOf(fn.Pos())})
 	}
 	// frame: components changed for pre-existing objects must be listed in assigns
-	e.frameObligations(c, res, h0)
+	if c.Options["trusted-frame"] {
+		e.trustedClauses = append(e.trustedClauses, c.Func+": assigns clause (frame) trusted, not checked against the body")
+	} else {
+		e.frameObligations(c, res, h0)
+	}
 	vc.Obls = e.obls
 	return
 }
